@@ -32,6 +32,7 @@ def run(ctx, crate):
     rule_slot_identity(ctx, crate)
     rule_head_only_reap(ctx, crate)
     rule_removal_keeps_screen_current(ctx, crate)
+    rule_readd_noop(ctx, crate)
     D.rule_render_unless_hidden(ctx, crate)
     D.rule_finished_draws_forced(ctx, crate)
     D.rule_rows_newtype(ctx, crate)
@@ -283,7 +284,11 @@ def rule_slot_identity(ctx, crate, rule="R-MULTI-SLOT-IDENTITY"):
             ctx.check(sl0.has_field("state", "multi::MultiProgress"), rule, "remote-state-is-self", b.name, c.loc(),
                       "the remote target points to this MultiProgress' state", "the remote target points to another state", cfg)
         sd = b.calls(r"progress_bar::ProgressBar::set_draw_target")
-        ctx.check(bool(sd) and b.must_pass([0], [c.bb for c in sd]), rule, "installs-remote", b.name, K.fn_loc(b),
+        # ... except on the edge of the membership test that finds the bar already installed (its target is a remote of this state)
+        skip = [e for e in member_test_edges(crate, b) if not any(c.bb in b.reach([e[1]]) for c in sd + b.calls(r"multi::MultiState::insert"))]
+        through = {c.bb for c in sd}
+        seen_ = b.reach([0], avoid=through, avoid_edges=skip)
+        ctx.check(bool(sd) and not (seen_ & set(b.return_blocks())), rule, "installs-remote", b.name, K.fn_loc(b),
                   "the remote target is installed into the bar on every path", "the bar is returned without its remote draw target", cfg)
     d = K.find_one(ctx, crate, rule, r"draw_target::Drawable::<'_>::state")
     if d:
@@ -443,3 +448,42 @@ def rule_multi_arm_unconditional(ctx, crate, rule="R-MULTI-MEMBER-REFRESH"):
                   "the Multi arm of drawable() always yields Drawable::Multi and consults no limiter (the member rendering is refreshed before the MultiProgress decides)",
                   "the Multi arm of drawable() can return None / consults a limiter (%s): a skipped update of one bar is lost for frames requested by other bars" % (limiter or "early None"), cfg)
     ctx.floor(rule, n, 1, cfg, "TargetKind::Multi arms in drawable()")
+
+
+def member_test_edges(crate, b):
+    """Edges of tests that ask whether a bar already draws through this MultiState (`remote()` of its target + `Arc::ptr_eq`)."""
+    out = []
+    for sb, t in b.switches():
+        sls = K.cond_slices(b, sb)
+        if any(K.deep_has_call(crate, sl, r"std::sync::Arc::<T, A>::ptr_eq", r"std::sync::Arc::<T>::ptr_eq") for sl in sls) and \
+                any(K.deep_has_call(crate, sl, r"draw_target::ProgressDrawTarget::remote") for sl in sls):
+            out.extend((sb, x) for x in b.succ(sb))
+    return out
+
+
+def rule_readd_noop(ctx, crate, rule="R-MULTI-READD-NOOP"):
+    """"in the order defined by add/insert/..", and every one of those documents: "adding a progress bar that is already a member
+    of the MultiProgress will have no effect". Every function that allocates a slot for a bar handed in by the caller
+    (`MultiState::insert` followed by `set_draw_target(new_remote(..))`) asks first whether that bar already draws through
+    this very MultiState (its target is a remote of the same `Arc`, `Arc::ptr_eq`), and on the yes-edge neither allocates nor
+    re-targets. Without the test a second `add` moves the bar to the end of the order and leaves its old slot behind as a
+    phantom member."""
+    cfg = crate.config
+    n = 0
+    for b in K.lib_bodies(crate):
+        if b.kind == "Closure":
+            continue
+        ins = b.calls(r"multi::MultiState::insert")
+        sets = b.calls(r"progress_bar::ProgressBar::set_draw_target")
+        if not ins or not sets:
+            continue
+        n += 1
+        ok = False
+        for sb, x in member_test_edges(crate, b):
+            if not any(c.bb in b.reach([x]) for c in ins + sets):
+                ok = True
+        ctx.check(ok, rule, "member-test:%s" % K.meth(b.name), b.name, ins[0].loc(),
+                  "a bar that already draws through this MultiState is returned as it is: no slot is allocated, its target is not replaced",
+                  "%s allocates a new slot and re-targets the bar without asking whether it is already a member: `mp.add(a); mp.add(b); mp.add(a.clone())` moves "
+                  "a below b and leaves a's old slot in the ordering as a phantom member (documented: \"will have no effect\")" % K.meth(b.name), cfg)
+    ctx.floor(rule, n, 1, cfg, "functions that allocate a slot for a caller's bar")
